@@ -101,6 +101,26 @@ Theorem C31_remove_refines :
 Proof. exact remove_refines. Qed.
 Print Assumptions C31_remove_refines.
 
+(** ** contains over a field of characteristic p (count is a sum IN the field): equal to list membership
+       for every list shorter than the characteristic — and the guard is tight (boundary of F-C31-2) *)
+
+Theorem C31_contains_char_guard :
+  forall (p : Z) (xs : list Z) (v : Z), (Z.of_nat (length xs) < p)%Z ->
+    count_mod p xs v = py_count xs v /\ contains_mod p xs v = b2z (py_inb xs v).
+Proof. exact contains_char_guard. Qed.
+Print Assumptions C31_contains_char_guard.
+
+Theorem C31_contains_char_boundary :
+  forall (p v : Z), (0 < p)%Z ->
+    let xs := repeat v (Z.to_nat p) in
+    Z.of_nat (length xs) = p /\ py_inb xs v = true /\ contains_mod p xs v = 0%Z.
+Proof. exact contains_char_boundary. Qed.
+Print Assumptions C31_contains_char_boundary.
+
+Example C31_nonvacuous_contains_char :
+  contains_mod 2 [3; 5; 3]%Z 3%Z = 0%Z /\ contains_mod 257 [3; 5; 3]%Z 3%Z = 1%Z /\ contains_mod 2 [7]%Z 7%Z = 1%Z.
+Proof. vm_compute. repeat split. Qed.
+
 (** ** Comparisons: _less_than/_norm is Python's lexicographic list <, for ALL pairs of lists
        (equal lengths, proper prefixes either way, empties) *)
 
